@@ -563,13 +563,7 @@ def run(ctx):
             ctx.check(okf, 'B2', 'IpsecConfiguration.%s = from_network(%s_subnet, %s_port, ip_proto looked up in _ip_proto_name_to_enum)' % (
                 f, side, side), key=('B2', 'IpsecConfiguration', f, 'orientation'), site=site)
         # index
-        e = kw['index']
-        rd = conf_reads(e, d_ips)
-        ctx.check(len(rd) == 1 and rd[0][0] == 'index' and rd[0][1] is not MANDATORY and rd[0][1] is not None
-                  and any(isinstance(x[1], str) and x[1].startswith('random.') for x in tq.find_calls(rd[0][1]))
-                  and tq.is_call(e, 'builtins.int'), 'B2',
-                  'IpsecConfiguration.index is the configured index, or a random one when absent',
-                  key=('B2', 'IpsecConfiguration', 'index'), site=site)
+        entry_index(ctx, 'B2', kw['index'], d_ips, site)
         e = kw['mode']
         ctx.check(lookup_of(ctx, e) is not None and lookup_of(ctx, e)[1] == strip_ids(LP._module_const(cm, '_mode_name_to_enum')),
                   'B2', 'IpsecConfiguration.mode is looked up in _mode_name_to_enum', key=('B2', 'IpsecConfiguration', 'mode', 'table'),
@@ -741,6 +735,30 @@ def check_payload_id(ctx):
         ok2 = tq.text(a_).endswith('ID_RFC822_ADDR') and tq.text(b_).endswith('ID_FQDN')
     ctx.check(ok2, 'B2', 'any other id (ip_address raised ValueError) is typed ID_RFC822_ADDR when it contains "@", else ID_FQDN, and '
               'carries the encoded text', key=('B2', '_get_payload_id', 'text'), site=ctx.site(fi, fi.node))
+
+
+def entry_index(ctx, rule, e=None, d_ips=None, site=None):
+    """the index of a protect entry is the configured one, or - when none is configured - a draw from the module-level generator of
+    `random` (independent draws for different entries: a generator seeded per entry from the connection gives entries of one connection
+    the same index, and the acquire of one is then answered with the other's proposal, mode and selectors - shared with C15 Y3)"""
+    if e is None:
+        lips = ctx.func(CLS + '._load_ipsec_conf')
+        LP = ctx.sval(lips)
+        ps = lips.call_params()
+        ctx.require(len(ps) > 1, 'anchor vanished: parameters of %s' % lips.qual)
+        d_ips = ('param', ps[1])
+        calls = LP.calls_to(callee='namedtuple.IpsecConfiguration')
+        ctx.floor(rule + ' IpsecConfiguration(...) construction', len(calls), 1)
+        for c in calls:
+            ctx.require('index' in c.args, 'IpsecConfiguration(...) without index')
+            entry_index(ctx, rule, c.args['index'], d_ips, ctx.site(lips, c.node))
+        return
+    rd = conf_reads(e, d_ips)
+    ctx.check(len(rd) == 1 and rd[0][0] == 'index' and rd[0][1] is not MANDATORY and rd[0][1] is not None
+              and any(isinstance(x[1], str) and x[1].startswith('random.') for x in tq.find_calls(rd[0][1]))
+              and tq.is_call(e, 'builtins.int'), rule,
+              'IpsecConfiguration.index is the configured index, or a random one when absent',
+              key=(rule, 'IpsecConfiguration', 'index'), site=site)
 
 
 def own_protect_list(ctx, rule):
